@@ -39,6 +39,7 @@ func main() {
 	verbose := flag.Bool("v", false, "verbose")
 	keep := flag.Bool("keep", false, "keep SMT files")
 	dumpQ := flag.String("dump", "", "print the SMT query of the obligation whose name contains this text")
+	oblF := flag.String("obl", "", "authoring aid: only discharge obligations whose name contains one of these |-separated texts (the run is then partial)")
 	flag.Parse()
 	start := time.Now()
 	seed := 0
@@ -167,6 +168,19 @@ func main() {
 		return
 	}
 	genSecs := time.Since(start).Seconds() - loadSecs
+	if *oblF != "" {
+		var sel []*Obligation
+		for _, o := range all {
+			for _, pat := range strings.Split(*oblF, "|") {
+				if strings.Contains(o.Name, pat) {
+					sel = append(sel, o)
+					break
+				}
+			}
+		}
+		fmt.Printf("PARTIAL RUN: -obl selects %d of %d obligations\n", len(sel), len(all))
+		all = sel
+	}
 	dischargeAll(p, all, cfg)
 	if *verbose {
 		fmt.Printf("vcgen %.1fs, solving %.1fs\n", genSecs, time.Since(start).Seconds()-loadSecs-genSecs)
